@@ -15,6 +15,19 @@
 (* followed by what fit() keeps of it when keep_samples is on:             *)
 (*       mask[i] = (samples[i] != 0).                                      *)
 (*                                                                         *)
+(* The number of draws of a stratum is computed by the code in floating    *)
+(* point and cast to an integer (the cast truncates).  StratumSize below   *)
+(* transcribes that arithmetic; the fact the property rests on is that     *)
+(* every class gets exactly as many draws as it has rows -- a class of     *)
+(* one row gets its one draw -- for EVERY row count of the property's      *)
+(* range, not only the ones the model enumerates draws for.  It is stated  *)
+(* twice: as the assumption SizeFact over all 1 <= k <= n <= 120 (checked  *)
+(* by TLC when it loads the module) and as the loop invariant              *)
+(* DrawsEqualClassSize of the state machine.  Any arithmetic that is one   *)
+(* draw short for some (k, n) -- e.g. a share (k/n) scaled back by n and   *)
+(* truncated, TruncShare below, which is what a rounded-down quotient      *)
+(* does -- falsifies both.                                                 *)
+(*                                                                         *)
 (* The random generator is modelled by nondeterministic choice: TLC        *)
 (* explores every sequence of draws, for every label vector y of the       *)
 (* configured scope (classes 1..k all present -- `classes` is unique(y)).  *)
@@ -41,6 +54,23 @@ VARIABLES variant,   \* "stratified" (classifier) | "plain" (regressor)
 vars == <<variant, y, l, d, samples, pc>>
 
 n == Len(y)
+
+\* `let size = ((n_samples as f64) / class_weight[l]) as usize;` with class_weight = 1.
+\* Integers up to 2^53 and their quotient by 1 are exact in f64; `as usize` truncates.
+ClassWeight == 1
+StratumSize(k, nrows) == k \div ClassWeight
+
+\* For contrast (not used by the model): the size computed as the class's share of the
+\* nrows draws in an arithmetic of `Digits` fractional binary digits that rounds the
+\* quotient down, then truncated.  TruncShare(1, 49, 1024) = 0: the class gets no draw. 
+\* Substituting it for StratumSize makes SizeFact and DrawsEqualClassSize fail.
+TruncShare(k, nrows, scale) == (((k * scale) \div nrows) * nrows) \div scale
+
+\* every class gets as many draws as it has rows, for every n of the property's range
+ASSUME SizeFact == \A nn \in 1..120 : \A k \in 1..nn : StratumSize(k, nn) = k
+\* ... and the contrast arithmetic does not (1024 = 10 binary digits)
+ASSUME ShareIsShort == \E nn \in 1..120 : TruncShare(1, nn, 1024) = 0
+
 NumClasses == SeqMax(y, 1, y[1])
 Index(c) == {i \in 1..n : y[i] = c}
 
@@ -54,7 +84,7 @@ Init ==
           /\ Surjective(y, k)
     /\ samples = [i \in 1..n |-> 0]
     /\ IF variant = "stratified"
-       THEN l = 1 /\ d = Cardinality(Index(1))
+       THEN l = 1 /\ d = StratumSize(Cardinality(Index(1)), n)
        ELSE l = 0 /\ d = n
     /\ pc = "draw"
 
@@ -70,7 +100,7 @@ Draw ==
 NextClass ==
     /\ pc = "draw" /\ d = 0
     /\ IF variant = "stratified" /\ l < NumClasses
-       THEN l' = l + 1 /\ d' = Cardinality(Index(l + 1)) /\ UNCHANGED pc
+       THEN l' = l + 1 /\ d' = StratumSize(Cardinality(Index(l + 1)), n) /\ UNCHANGED pc
        ELSE pc' = "done" /\ UNCHANGED <<l, d>>
     /\ UNCHANGED <<variant, y, samples>>
 
@@ -91,6 +121,13 @@ ModelSatisfiesProperty ==
             /\ variant = "stratified" =>
                   /\ \A c \in 1..NumClasses : SumSet(samples, Index(c)) = Cardinality(Index(c))
                   /\ StratifiedTree(Mask, y, n, 1..NumClasses, 1)
+
+\* loop invariant of the stratified sampler: draws made + draws still to make for the class
+\* being resampled = its number of rows; classes already done have received theirs
+DrawsEqualClassSize ==
+    (variant = "stratified" /\ pc = "draw") =>
+        /\ d + SumSet(samples, Index(l)) = Cardinality(Index(l))
+        /\ \A c \in 1..(l - 1) : SumSet(samples, Index(c)) = Cardinality(Index(c))
 
 \* Not an invariant: a plain bootstrap sample may contain no row of some class.  Listed
 \* in no cfg; `INVARIANT NeverMisses` fails on the plain variant, as it should.
